@@ -470,48 +470,54 @@ func genHoldSQL(rt *rapid.T) string {
 
 func TestHeldValuesStable(t *testing.T) {
 	hx.Rule("held_values_stable", "histories of parse-and-hold, tokenize-and-hold (tokens and comments; tokenizer kept or returned to the pool), reuse of the pooled tokenizer, derive-and-hold (extracted lists, scan result, formatted text), release of one held tree, in-place rewriting of one held tree with a pkg/transform rule that is shared by the whole history (17 rules), churn of parse+release on this and on four other goroutines, recovery-parse-and-hold; after every step every value still held must dump equal to its snapshot; non-trivial = a release or >= 10 churn parses between a hold and a later check; distinct = op kinds")
-	holdCheck.Rapid(t, hx.N(10000, 80000), func(rt *rapid.T) HoldHistory {
-		if rapid.IntRange(0, 3).Draw(rt, "transform_focus") == 0 {
-			// several trees rewritten with the SAME rule values, then one of them released or
-			// rewritten again while the others are still held
-			var h HoldHistory
-			nTrees := rapid.IntRange(2, 4).Draw(rt, "trees")
-			for i := 0; i < nTrees; i++ {
-				sql := rapid.SampledFrom([]string{"SELECT a , b FROM t1 WHERE c = 1", "SELECT a FROM t1 JOIN t2 ON t1 . a = t2 . a", "SELECT * FROM t1", "UPDATE t1 SET a = 1 WHERE b = 2", "DELETE FROM t1 WHERE a = 1",
-					"SELECT a , b FROM t1 WHERE c > 0 ORDER BY a LIMIT 3"}).Draw(rt, "tsql")
-				h.Ops = append(h.Ops, HoldOp{Kind: "parse_hold", SQL: sql})
-			}
-			rule := rapid.SampledFrom([]int{0, 1, 2, 3, 12, 6, 11}).Draw(rt, "shared_rule") // rules that add nodes to the tree
-			for i := 0; i < nTrees; i++ {
-				h.Ops = append(h.Ops, HoldOp{Kind: "transform", Idx: i, N: rule})
-			}
-			for i, n := 0, rapid.IntRange(1, 5).Draw(rt, "tail"); i < n; i++ {
-				k := rapid.SampledFrom([]string{"release", "transform", "pool_gets", "churn", "derive_hold"}).Draw(rt, "tailkind")
-				h.Ops = append(h.Ops, HoldOp{Kind: k, SQL: "SELECT x FROM y WHERE z = 1 AND w = 2", N: rapid.IntRange(0, 16).Draw(rt, "n"), Idx: rapid.IntRange(0, nTrees-1).Draw(rt, "idx")})
-			}
-			hx.Case("held_values_stable", true, fmt.Sprint(h.Ops), "transform_focused")
-			hx.Sample("held_values_stable", []string{"transform_focused"})
-			return h
-		}
-		n := rapid.IntRange(2, 14).Draw(rt, "nops")
-		var h HoldHistory
-		var kinds []string
-		nt := false
-		holds := 0
-		for i := 0; i < n; i++ {
-			k := rapid.SampledFrom([]string{"parse_hold", "parse_hold", "tokenize_hold_put", "tokenize_hold_keep", "reuse_tokenizer", "derive_hold", "release", "release", "pool_gets", "churn", "churn_goroutines", "recovery_hold", "transform", "transform", "transform"}).Draw(rt, "kind")
-			op := HoldOp{Kind: k, SQL: genHoldSQL(rt), N: rapid.IntRange(1, 20).Draw(rt, "n"), Idx: rapid.IntRange(0, 20).Draw(rt, "idx")}
-			if strings.Contains(k, "hold") {
-				holds++
-			}
-			if holds > 0 && (k == "release" || k == "transform" || ((k == "churn" || k == "churn_goroutines") && op.N >= 10) || k == "reuse_tokenizer") {
-				nt = true
-			}
-			h.Ops = append(h.Ops, op)
-			kinds = append(kinds, k)
-		}
-		hx.Case("held_values_stable", nt, strings.Join(kinds, ","))
-		hx.Sample("held_values_stable", kinds)
-		return h
-	})
+	holdCheck.Rapid(t, hx.N(10000, 80000), genHoldHistory)
 }
+
+// genHoldHistory is the case generator of holdCheck (shared by the rapid run and the native fuzz target).
+func genHoldHistory(rt *rapid.T) HoldHistory {
+	if rapid.IntRange(0, 3).Draw(rt, "transform_focus") == 0 {
+		// several trees rewritten with the SAME rule values, then one of them released or
+		// rewritten again while the others are still held
+		var h HoldHistory
+		nTrees := rapid.IntRange(2, 4).Draw(rt, "trees")
+		for i := 0; i < nTrees; i++ {
+			sql := rapid.SampledFrom([]string{"SELECT a , b FROM t1 WHERE c = 1", "SELECT a FROM t1 JOIN t2 ON t1 . a = t2 . a", "SELECT * FROM t1", "UPDATE t1 SET a = 1 WHERE b = 2", "DELETE FROM t1 WHERE a = 1",
+				"SELECT a , b FROM t1 WHERE c > 0 ORDER BY a LIMIT 3"}).Draw(rt, "tsql")
+			h.Ops = append(h.Ops, HoldOp{Kind: "parse_hold", SQL: sql})
+		}
+		rule := rapid.SampledFrom([]int{0, 1, 2, 3, 12, 6, 11}).Draw(rt, "shared_rule") // rules that add nodes to the tree
+		for i := 0; i < nTrees; i++ {
+			h.Ops = append(h.Ops, HoldOp{Kind: "transform", Idx: i, N: rule})
+		}
+		for i, n := 0, rapid.IntRange(1, 5).Draw(rt, "tail"); i < n; i++ {
+			k := rapid.SampledFrom([]string{"release", "transform", "pool_gets", "churn", "derive_hold"}).Draw(rt, "tailkind")
+			h.Ops = append(h.Ops, HoldOp{Kind: k, SQL: "SELECT x FROM y WHERE z = 1 AND w = 2", N: rapid.IntRange(0, 16).Draw(rt, "n"), Idx: rapid.IntRange(0, nTrees-1).Draw(rt, "idx")})
+		}
+		hx.Case("held_values_stable", true, fmt.Sprint(h.Ops), "transform_focused")
+		hx.Sample("held_values_stable", []string{"transform_focused"})
+		return h
+	}
+	n := rapid.IntRange(2, 14).Draw(rt, "nops")
+	var h HoldHistory
+	var kinds []string
+	nt := false
+	holds := 0
+	for i := 0; i < n; i++ {
+		k := rapid.SampledFrom([]string{"parse_hold", "parse_hold", "tokenize_hold_put", "tokenize_hold_keep", "reuse_tokenizer", "derive_hold", "release", "release", "pool_gets", "churn", "churn_goroutines", "recovery_hold", "transform", "transform", "transform"}).Draw(rt, "kind")
+		op := HoldOp{Kind: k, SQL: genHoldSQL(rt), N: rapid.IntRange(1, 20).Draw(rt, "n"), Idx: rapid.IntRange(0, 20).Draw(rt, "idx")}
+		if strings.Contains(k, "hold") {
+			holds++
+		}
+		if holds > 0 && (k == "release" || k == "transform" || ((k == "churn" || k == "churn_goroutines") && op.N >= 10) || k == "reuse_tokenizer") {
+			nt = true
+		}
+		h.Ops = append(h.Ops, op)
+		kinds = append(kinds, k)
+	}
+	hx.Case("held_values_stable", nt, strings.Join(kinds, ","))
+	hx.Sample("held_values_stable", kinds)
+	return h
+}
+
+// FuzzHoldHistory: coverage-guided search over the same generator (thorough tier).
+func FuzzHoldHistory(f *testing.F) { holdCheck.Fuzz(f, genHoldHistory) }
